@@ -296,3 +296,45 @@ package oras
 //@   call dst.Tag set ecTagged = ecTagged || (result == nil && args.reference == (dstRef0 == "" ? srcRef : dstRef0) && args.desc == node)
 //@   call ExtendedCopyGraph requires [C03:copies-the-resolved-node] args.node == node && args.opts == opts.ExtendedCopyGraphOptions
 //@   ensures@5 [C03:tags-node] result1 == nil ==> ecTagged && result0 == node
+//@
+//@ import copyutil "oras.land/oras-go/v2/internal/copyutil"
+//@ pure isPredOf(p descriptor.Descriptor, c descriptor.Descriptor) bool
+//@ callback FindPredsHook params ctx, src, desc
+//@   ensures [predecessor-listing] result1 == nil ==> (forall i int :: 0 <= i && i < len(result0) ==> isPredOf(K(result0[i]), K(desc))) && (forall p descriptor.Descriptor :: isPredOf(p, K(desc)) ==> (exists i int :: 0 <= i && i < len(result0) && K(result0[i]) == p))
+//@   modifies alloc, new elems[ocispec.Descriptor], elems[byte], ghost.closedRC, ghost.readerOver
+//@ funcfield ExtendedCopyGraphOptions.FindPredecessors FindPredsHook
+//@
+//@ ghost local stackPos(p descriptor.Descriptor) int
+//@ pure onStack(st copyutil.Stack, p descriptor.Descriptor) bool = 0 <= stackPos(p) && stackPos(p) < len(st) && K(st[stackPos(p)].Node) == p
+//@ ghost local frVisited set[descriptor.Descriptor]
+//@ ghost rootKey(i int) descriptor.Descriptor
+//@
+//@ func findRoots
+//@   requires [wf] storage != nil
+//@   let unlimited = opts.Depth <= 0
+//@   call Push set stackPos(K(args.i.Node)) = len(stack) - 1
+//@   loop 0 invariant [objects] visited != nil && alive(visited) && rootMap != nil && alive(rootMap) && opts.FindPredecessors != nil && opts.Depth == opts0.Depth
+//@   loop 0 invariant [C03:start-node-seen] K(node) in visited || onStack(stack, K(node))
+//@   loop 0 invariant [C03:worklist] unlimited ==> (forall v, p descriptor.Descriptor :: v in visited && isPredOf(p, v) ==> p in visited || onStack(stack, p))
+//@   loop 0 invariant [C03:roots-are-visited] forall k descriptor.Descriptor :: k in rootMap ==> k in visited && K(rootMap[k]) == k
+//@   loop 0 invariant [C03:orphans-are-roots] unlimited ==> (forall v descriptor.Descriptor :: v in visited && (forall p descriptor.Descriptor :: !isPredOf(p, v)) ==> v in rootMap)
+//@   loop 0 invariant [C03:stack-depth] forall i int :: 0 <= i && i < len(stack) ==> (opts.Depth > 0 ==> 0 <= stack[i].Depth && stack[i].Depth <= opts.Depth)
+//@   loop 1 invariant [objects] visited != nil && alive(visited) && rootMap != nil && alive(rootMap) && opts.FindPredecessors != nil && opts.Depth == opts0.Depth && currentKey in visited && currentKey == K(currentNode) && (opts.Depth > 0 ==> current.Depth < opts.Depth && 0 <= current.Depth)
+//@   loop 1 invariant [C03:start-node-seen] K(node) in visited || onStack(stack, K(node))
+//@   loop 1 invariant [C03:worklist-others] unlimited ==> (forall v, p descriptor.Descriptor :: v in visited && v != currentKey && isPredOf(p, v) ==> p in visited || onStack(stack, p))
+//@   loop 1 invariant [C03:push-all-unvisited] forall i int :: 0 <= i && i < $i ==> K(predecessors[i]) in visited || onStack(stack, K(predecessors[i]))
+//@   loop 1 invariant [predecessor-listing] (forall i int :: 0 <= i && i < len(predecessors) ==> isPredOf(K(predecessors[i]), currentKey)) && (forall p descriptor.Descriptor :: isPredOf(p, currentKey) ==> (exists i int :: 0 <= i && i < len(predecessors) && K(predecessors[i]) == p)) && len(predecessors) > 0
+//@   loop 1 invariant [C03:roots-are-visited] forall k descriptor.Descriptor :: k in rootMap ==> k in visited && K(rootMap[k]) == k
+//@   loop 1 invariant [C03:orphans-are-roots] unlimited ==> (forall v descriptor.Descriptor :: v in visited && v != currentKey && (forall p descriptor.Descriptor :: !isPredOf(p, v)) ==> v in rootMap)
+//@   loop 1 invariant [C03:stack-depth] forall i int :: 0 <= i && i < len(stack) ==> (opts.Depth > 0 ==> 0 <= stack[i].Depth && stack[i].Depth <= opts.Depth)
+//@   loop 2 invariant [objects] visited != nil && rootMap != nil && len(stack) == 0
+//@   loop 2 invariant [visited-are-keys] forall k descriptor.Descriptor :: k in $visited ==> k in rootMap
+//@   loop 2 invariant [C03:listed] forall i int :: 0 <= i && i < len(roots) ==> rootKey(i) in $visited && roots[i] == rootMap[rootKey(i)]
+//@   loop 2 invariant [C03:all-visited-listed] forall k descriptor.Descriptor :: k in $visited ==> (exists i int :: 0 <= i && i < len(roots) && rootKey(i) == k)
+//@   loop 2 invariant [closure-kept] (K(node) in visited) && (unlimited ==> (forall v, p descriptor.Descriptor :: v in visited && isPredOf(p, v) ==> p in visited)) && (forall k descriptor.Descriptor :: k in rootMap ==> k in visited && K(rootMap[k]) == k) && (unlimited ==> (forall v descriptor.Descriptor :: v in visited && (forall p descriptor.Descriptor :: !isPredOf(p, v)) ==> v in rootMap))
+//@   loop 2 backedge set rootKey(len(roots)) = $key
+//@   exit set frVisited = keys(visited)
+//@   ensures [C03:start-node-reached] result1 == nil ==> K(node) in frVisited
+//@   ensures [C03:upward-closed] result1 == nil && unlimited ==> (forall v, p descriptor.Descriptor :: v in frVisited && isPredOf(p, v) ==> p in frVisited)
+//@   ensures [C03:every-maximal-node-is-a-root] result1 == nil && unlimited ==> (forall v descriptor.Descriptor :: v in frVisited && (forall p descriptor.Descriptor :: !isPredOf(p, v)) ==> (exists i int :: 0 <= i && i < len(result0) && K(result0[i]) == v))
+//@   ensures [C03:roots-are-reached-nodes] result1 == nil ==> (forall i int :: 0 <= i && i < len(result0) ==> K(result0[i]) in frVisited)
